@@ -220,9 +220,16 @@ func runC43(c *Ctx) {
 				}
 			}
 			ie, hasE := vals["error"]
-			_, hasO := vals["ok"]
+			io, hasO := vals["ok"]
 			if !hasE || !hasO {
 				return
+			}
+			// …or, written the other way round, the "ok" edge comes from the block entered on err == nil
+			po := phi.Block().Preds[io]
+			for _, g := range append(blockEntryGuard(po), GuardsAt(po)...) {
+				if x, isNil, ok := nilCompare(g); ok && isNil && u.Describe(x) == "err" {
+					okStatus = true
+				}
 			}
 			// the "error" edge comes from the block entered on err != nil
 			p := phi.Block().Preds[ie]
